@@ -21,11 +21,18 @@ def gen(run):
     cases = []
     for fam, cap in (("pairs", None), ("headers", 1500), ("amounts", 2500), ("postings", 2500)):
         cs = jcommon.family(run, fam)
-        if not thorough and cap and len(cs) > cap:
-            # keep every trigger case, sample the rest
-            trig = [c for c in cs if c["trig"]]
-            rest = [c for c in cs if not c["trig"]]
-            cs = trig + run.rng.sample(rest, cap)
+        if not thorough and cap:
+            # sample only the big sub-families; keep every trigger case and every small sub-family whole
+            by = {}
+            for c in cs:
+                by.setdefault(c["fam"], []).append(c)
+            cs = []
+            for sub, lst in sorted(by.items()):
+                if len(lst) > cap:
+                    trig = [c for c in lst if c["trig"]]
+                    rest = [c for c in lst if not c["trig"]]
+                    lst = trig + run.rng.sample(rest, cap)
+                cs += lst
         cases += cs
     cases += jcommon.random_cases(run, 600 if not thorough else 20000, maxentries=8)
     return cases
